@@ -8,13 +8,30 @@ handler in the harness) and is used by the checker as the linearisation of one s
 quantum - the server is cooperative, so each dispatched request runs atomically up to its first
 real suspension point.
 """
+import atexit
 import json
-import pickle
+import os
+import shutil
+import tempfile
 
 import gevent
 from gevent import queue
 
 from qs import jobs, qserve, rpcserver
+
+
+_SCRATCH = [None, 0]
+
+
+def _data_dir():
+    """a fresh, empty data directory for one engine (under one per-process scratch directory)"""
+    if _SCRATCH[0] is None:
+        _SCRATCH[0] = tempfile.mkdtemp(prefix="verif-qs-")
+        atexit.register(shutil.rmtree, _SCRATCH[0], True)
+    _SCRATCH[1] += 1
+    d = os.path.join(_SCRATCH[0], "d%d" % _SCRATCH[1])
+    os.mkdir(d)
+    return d
 
 
 class VClock:
@@ -94,7 +111,10 @@ class Engine:
         self.rnd = ScriptedRandom()
         jobs.time = self.clock
         jobs.random = self.rnd
-        self.db = qserve.db()
+        # the real qserve.Main owns the database: loaddb at start, savedb at stop
+        self.data_dir = _data_dir()
+        self.main = qserve.Main(0, "127.0.0.1", self.data_dir, None)
+        self.db = self.main.db
         self.events = []       # client-boundary + dispatch-order log
         self.conns = {}
         self.generation = 0
@@ -210,20 +230,30 @@ class Engine:
         CallInLoop greenlets would."""
         self.clock.now += dt
         self.events.append({"t": "tick", "dt": dt, "now": self.clock.now})
-        self.db.workq.handletimeouts()
-        self.db.workq.dropdead()
+        self.main.handletimeouts()
+        self.main.watchdog()
 
-    def restart(self):
-        """Stop the server and start it again from its saved state: pickle as Main.savedb does
-        (before any connection's shutdown ran), drop every connection, load."""
-        blob = pickle.dumps(self.db, 2)
-        self.events.append({"t": "restart", "bytes": len(blob)})
+    def advance(self, dt):
+        """the clock moves, the periodic loops do not run (control for a restart with downtime)"""
+        self.clock.now += dt
+        self.events.append({"t": "advance", "dt": dt, "now": self.clock.now})
+
+    def restart(self, downtime=0):
+        """Stop the server and start it again from its saved state: Main.savedb (as Main.run's
+        finally does, before any connection's shutdown ran), drop every connection, let `downtime`
+        pass, then a new Main loads the data directory."""
+        self.main.savedb()
+        qpath = os.path.join(self.data_dir, "workq.pickle")
+        self.events.append({"t": "restart", "bytes": os.path.getsize(qpath) if os.path.exists(qpath) else -1,
+                            "downtime": downtime, "now": self.clock.now + downtime})
         old = list(self.conns.values())
         for c in old:
             c.g.kill(block=False)
         for _ in range(4):
             gevent.sleep(0)
-        self.db = pickle.loads(blob)
+        self.clock.now += downtime
+        self.main = qserve.Main(0, "127.0.0.1", self.data_dir, None)
+        self.db = self.main.db
         self.generation += 1
         names = [c.name for c in old]
         self.conns = {}
@@ -250,3 +280,4 @@ class Engine:
                 c.g.kill(block=False)
         for _ in range(3):
             gevent.sleep(0)
+        shutil.rmtree(self.data_dir, True)
